@@ -13,7 +13,7 @@ import (
 func genC02() *rapid.Generator[Case] {
 	return rapid.Custom(func(t *rapid.T) Case {
 		c := Case{Cfg: genConfig([]int{2}, []int64{120, 200, 333, 1024}).Draw(t, "cfg")}
-		bucket := rapid.SampledFrom([]string{"b", "bk", "c"}).Draw(t, "bucket")
+		bucket := rapid.SampledFrom([]string{"b", "bk", "c", "b.k", "c.meta"}).Draw(t, "bucket")
 		buckets := []string{bucket}
 		shape := genKeyShape(t, keyAlphabet, 2, 7, 3, 4, false)
 		keys := shape.Keys
